@@ -203,6 +203,34 @@ def Z4(ctx):
                 site_str(prog, CHECK, sb), detail="store")
 
 
+def Z4b(ctx):
+    """The checkpoint file is replaced, not overwritten in place: it is opened with truncation (File::create, or OpenOptions
+    with truncate(true)); otherwise a shorter checkpoint leaves stale bytes behind and cannot be loaded."""
+    prog = ctx.prog
+    fk = "model::checkpoint::store_execution_path"
+    fn = prog.fn(fk)
+    if fn is None:
+        ctx.missing("Z4b", fk)
+        return
+    inst = prog.ident(fk)
+    keys = [(b, t, prog.callee_key(c)) for (b, t, c) in prog.sites(inst)]
+    if any(k == "core::panicking::panic_fmt" or k.startswith("core::panicking") for (_, _, k) in keys) and \
+            not any(k.startswith("std::fs::") for (_, _, k) in keys):
+        ctx.notes.append("Z4b skipped in config %s: checkpoint feature not compiled (stub)" % ctx.config)
+        return
+    creates = [b for (b, t, k) in keys if k == "std::fs::File::create"]
+    trunc = [(b, t) for (b, t, k) in keys if k == "std::fs::OpenOptions::truncate"]
+    opens = [b for (b, t, k) in keys if k in ("std::fs::OpenOptions::open", "std::fs::File::open", "std::fs::File::options")]
+    ok = bool(creates) and not opens
+    if opens and trunc:
+        ok = all(const_int(t["args"][1]) == 1 for (b, t) in trunc)
+    if ok:
+        ctx.ok("Z4b", fk, "checkpoint file opened with truncation", [site_str(prog, fk, (creates or [x for x, _ in trunc])[0])])
+    else:
+        ctx.bad("Z4b", fk, "the checkpoint file is opened without truncation: a later, shorter checkpoint leaves trailing bytes of the "
+                "previous one and the stored path can no longer be loaded", fn.loc())
+
+
 # ---------------------------------------------------------------------------------------- C16
 
 I1_RESET = {
